@@ -993,10 +993,11 @@ async fn build_authoritative_response(
             message.additionals.extend(adds.iter().cloned());
         }
 
+        // an NS RRset below the zone apex is a delegation, whatever the query type
         let is_referral = lookup_records.iter().next().is_some_and(|r| {
             r.record_type() == RecordType::NS
-                && query.query_type() != RecordType::NS
-                && query.query_type() != RecordType::ANY
+                && ((query.query_type() != RecordType::NS && query.query_type() != RecordType::ANY)
+                    || LowerName::from(&r.name) != *handler.origin())
         });
 
         if is_referral {
